@@ -1,11 +1,11 @@
 #!/bin/bash
 # tools/run_harmless.sh : apply each behaviour-preserving patch under harmless/*/ to /repo, run all quick checks (each must exit 0), restore /repo
-cd /verif
+cd "$(dirname "$(readlink -f "$0")")/.."
 git -C /repo status --short | grep -v '^??' && { echo "/repo dirty"; exit 2; }
 bad=0
 for d in harmless/*/; do
   echo "######## $d"
-  git -C /repo apply /verif/$d/patch.diff || { echo "does not apply"; bad=1; continue; }
+  git -C /repo apply "$PWD/$d/patch.diff" || { echo "does not apply"; bad=1; continue; }
   for id in C01 C02 C03 C04 C05 C06 C07 C08 C09 C10 C11 C12 C13 C14 C15 C16; do
     timeout 3000 ./check $id quick > /tmp/harmless_$id.log 2>&1; rc=$?
     echo "$id exit=$rc $(grep "^$id quick" /tmp/harmless_$id.log | tail -1 | cut -c1-150)"
